@@ -498,7 +498,11 @@ def packet_sequence(g, n, ex9, ex10, self_delimiting=True):
         if m < 0.2:
             pks.append((5, g.fixed(5, r.choice([0, 1, 2]))))
         elif m < 0.3:
-            pks.append((7, g.fixed(7, r.choice([1, 2]))))
+            pks.append((7, g.fixed(7, r.choice([0, 1, 2]))))
+        elif m < 0.36:
+            pks.append((10, g.ix_msg([])))              # a message with no sets: 16 bytes
+        elif m < 0.40:
+            pks.append((9, g.v9_hdr(0)))                # a V9 header announcing no flowsets: 20 bytes
         else:
             proto = "v9" if r.random() < 0.5 else "ipfix"
             e = ex9 if proto == "v9" else ex10
